@@ -125,7 +125,7 @@ func main() {
 				continue
 			}
 			n := occurrence(state, fmt.Sprintf("%d:%s", i, r.Match))
-			if n == r.Nth && matched == nil {
+			if (n == r.Nth || r.Nth < 0) && matched == nil {
 				matched = r
 			}
 		}
